@@ -27,6 +27,63 @@ func init() {
 	Registry["C19lin"] = c19lin
 	Registry["C19sched"] = c19sched
 	Registry["C19gen"] = c19gen
+	Registry["C19shared"] = c19shared
+}
+
+// c19shared presents the SAME one-time credential (authorization code, device code, request_uri) from several goroutines at
+// once. The reference store hands every one of them the same stored request object; what the race detector reports for this
+// workload is attributed to that single root cause by the aggregator. Panics and fatal errors are violations as everywhere.
+func c19shared(c *run.Ctx) {
+	rounds := 6
+	if !c.Quick() {
+		rounds = 60
+	}
+	for round := 0; round < rounds; round++ {
+		w := world.New(world.Opts{JWTAccess: round%2 == 1})
+		a := world.Public("pub-c")
+		red := "https://app-c.example/cb"
+		az := w.Authorize(url.Values{"client_id": {"pub-c"}, "response_type": {pick(caseRng(c, round), []string{"code", "code id_token", "code token"})}, "scope": {"openid offline fosite"}, "state": {"state-0123456789"},
+			"nonce": {"nonce-0123456789"}, "redirect_uri": {red}}, world.Consent{})
+		code := az.Params.Get("code")
+		dv := w.Device(url.Values{"client_id": {"pub-c"}, "scope": {"offline openid"}}, a)
+		_ = w.DeviceDecide(dv.S("user_code"), true, "user-dev", nil, true)
+		par := w.PAR(url.Values{"client_id": {"pub-c"}, "response_type": {"code"}, "scope": {"fosite"}, "state": {"state-0123456789"}, "redirect_uri": {red}}, a)
+		var wg sync.WaitGroup
+		start := make(chan struct{})
+		var okCode, okDev, okPar int64
+		for g := 0; g < 9; g++ {
+			wg.Add(1)
+			go func(g int) {
+				defer wg.Done()
+				defer func() {
+					if rec := recover(); rec != nil {
+						c.Violate(run.Violation{Kind: "panic", Key: "panic under concurrent use (same credential)", Detail: fmt.Sprintf("%v\n%s", rec, debug.Stack())})
+					}
+				}()
+				<-start
+				switch g % 3 {
+				case 0:
+					if w.Token(url.Values{"grant_type": {"authorization_code"}, "code": {code}, "redirect_uri": {red}}, a).Err == nil {
+						atomic.AddInt64(&okCode, 1)
+					}
+				case 1:
+					if w.Token(url.Values{"grant_type": {"urn:ietf:params:oauth:grant-type:device_code"}, "device_code": {dv.S("device_code")}}, a).Err == nil {
+						atomic.AddInt64(&okDev, 1)
+					}
+				case 2:
+					if o := w.Authorize(url.Values{"client_id": {"pub-c"}, "request_uri": {par.S("request_uri")}}, world.Consent{}); o.Err == nil {
+						atomic.AddInt64(&okPar, 1)
+					}
+				}
+			}(g)
+		}
+		close(start)
+		wg.Wait()
+		c.Eval(9)
+		c.Case(fmt.Sprintf("same-credential burst: code successes=%d device successes=%d request_uri successes=%d", okCode, okDev, okPar))
+		c.Count("c19_same_credential_bursts", 1)
+	}
+	c.Sample(map[string]interface{}{"same_credential_bursts": rounds, "goroutines_per_burst": 9})
 }
 
 // ---------------------------------------------------------------------------
@@ -51,6 +108,20 @@ func (p *pool) add(l *[]string, v string) {
 		*l = (*l)[len(*l)-40:]
 	}
 	p.mu.Unlock()
+}
+
+// take removes and returns a random element: one-time credentials are presented by exactly one goroutine here
+// (the same-credential case is the business of C19shared)
+func (p *pool) take(r *rand.Rand, l *[]string) string {
+	p.mu.Lock()
+	defer p.mu.Unlock()
+	if len(*l) == 0 {
+		return ""
+	}
+	i := r.Intn(len(*l))
+	v := (*l)[i]
+	*l = append((*l)[:i], (*l)[i+1:]...)
+	return v
 }
 
 func (p *pool) pick(r *rand.Rand, l *[]string) string {
@@ -113,7 +184,7 @@ func c19stress(c *run.Ctx) {
 							p.add(&p.codes, az.Params.Get("code"))
 							p.add(&p.ats, az.Params.Get("access_token"))
 						case 2, 3:
-							if code := p.pick(r, &p.codes); code != "" {
+							if code := p.take(r, &p.codes); code != "" {
 								out := w.Token(url.Values{"grant_type": {"authorization_code"}, "code": {code}, "redirect_uri": {"https://app-a.example/cb"}}, a)
 								p.add(&p.ats, out.S("access_token"))
 								p.add(&p.rts, out.S("refresh_token"))
@@ -144,7 +215,7 @@ func c19stress(c *run.Ctx) {
 								}
 							}
 						case 10:
-							if d := p.pick(r, &p.devs); d != "" {
+							if d := p.take(r, &p.devs); d != "" {
 								out := w.Token(url.Values{"grant_type": {"urn:ietf:params:oauth:grant-type:device_code"}, "device_code": {d}}, a)
 								p.add(&p.rts, out.S("refresh_token"))
 							}
@@ -152,7 +223,7 @@ func c19stress(c *run.Ctx) {
 							if r.Intn(2) == 0 {
 								out := w.PAR(url.Values{"client_id": {"conf-a"}, "response_type": {"code"}, "scope": {"fosite"}, "state": {"state-0123456789"}, "redirect_uri": {"https://app-a.example/cb"}}, a)
 								p.add(&p.pars, out.S("request_uri"))
-							} else if u := p.pick(r, &p.pars); u != "" {
+							} else if u := p.take(r, &p.pars); u != "" {
 								az := w.Authorize(url.Values{"client_id": {"conf-a"}, "request_uri": {u}}, world.Consent{})
 								p.add(&p.codes, az.Params.Get("code"))
 							}
@@ -402,6 +473,10 @@ func c19lin(c *run.Ctx) {
 				for j := 0; j < per; j++ {
 					in := sop{Key: pick(rr, keys), Req: pick(rr, reqs)}
 					in.Op = pick(rr, []string{"at-create", "at-get", "at-del", "at-revoke", "rt-create", "rt-get", "rt-del", "rt-revoke", "code-create", "code-get", "code-inval", "kv-create", "kv-get", "kv-del", "jti-set", "jti-valid"})
+					if in.Op == "at-create" || in.Op == "rt-create" {
+						// a signature belongs to one request for ever (signatures are unique): k1, k2 -> r1, k3 -> r2
+						in.Req = map[string]string{"k1": "r1", "k2": "r1", "k3": "r2"}[in.Key]
+					}
 					if strings.HasPrefix(in.Op, "kv-") {
 						in.Tab = pick(rr, []string{"pkce", "oidc", "par"})
 					}
